@@ -4,6 +4,7 @@ import (
 	"fmt"
 	"math"
 	"sort"
+	"sync"
 	"time"
 
 	tally "github.com/uber-go/tally/v4"
@@ -137,6 +138,10 @@ func c03Case(c *mon.Ctx, idx int, r *mon.Rand) {
 			c.Class("cases-with-colliding-twin-histograms", 1)
 		}
 	}
+	concTwins := len(twins) > 0 && r.Chance(1, 3)
+	if concTwins {
+		c.Class("cases-with-twins-created-concurrently", 1)
+	}
 	record := func(h tally.Histogram) {
 		// wrong-type samples first and in the middle: must change nothing
 		if effDur {
@@ -194,6 +199,27 @@ func c03Case(c *mon.Ctx, idx int, r *mon.Rand) {
 			}
 		}
 		if c.Guard("panic-create", detail, func() {
+			if concTwins {
+				// the histogram under test and its twins make their first use at
+				// the same moment, from different goroutines
+				var wg, start sync.WaitGroup
+				start.Add(1)
+				for ti, tw := range twins {
+					wg.Add(1)
+					go func(ti int, tw tally.Buckets) {
+						defer wg.Done()
+						defer func() { recover() }()
+						start.Wait()
+						th := root.SubScope(fmt.Sprintf("ctw%d", ti)).Histogram("tw", tw)
+						th.RecordValue(1)
+						th.RecordDuration(1)
+					}(ti, tw)
+				}
+				start.Done()
+				h = root.Histogram(name, arg)
+				wg.Wait()
+				return
+			}
 			if twinsFirst {
 				mkTwins()
 			}
